@@ -109,31 +109,69 @@ def loader(run, p):
                                           'other objects too (%s): a function reached through a class is shared by every class that inherits it' % norm(others[0])[:40]),
            fn=t, node=others[0] if others else None)
     n = 0
+    def filters(f, depth=0):
+        """Every value f returns has been through self._tagged_tests_only (directly or in a helper of the loader that filters)."""
+        rets = [r for r in ast.walk(f.node) if isinstance(r, ast.Return)]
+        if not rets or depth > 3:
+            return False
+        for r in rets:
+            v = r.value
+            if not (isinstance(v, ast.Call) and isinstance(v.func, ast.Attribute) and isinstance(v.func.value, ast.Name) and v.func.value.id == 'self'):
+                return False
+            if v.func.attr == '_tagged_tests_only':
+                continue
+            h = L.methods.get(v.func.attr)
+            if h is None or not filters(h, depth + 1):
+                return False
+        return True
     for name in ('loadTestsFromTestCase', 'loadTestsFromModule', 'loadTestsFromName', 'loadTestsFromNames'):
         f = L.methods.get(name)
-        rets = [r for r in ast.walk(f.node) if isinstance(r, ast.Return)] if f is not None else []
-        ok = f is not None and bool(rets) and all(isinstance(r.value, ast.Call) and norm(r.value.func) == 'self._tagged_tests_only' for r in rets) \
-            and ('unittest.TestLoader.' + name) in ast.unparse(f.node)
+        base = f is not None and any(isinstance(x, ast.Attribute) and x.attr == name and
+                                     (norm(x.value) in ('unittest.TestLoader', 'TestLoader', 'super()', 'super(TaggedTestLoader, self)'))
+                                     for x in ast.walk(f.node))
+        ok = f is not None and base and filters(f)
         n += 1
         run.ob('C19-LOADER', 'entry:%s' % name, ok, '%s delegates to unittest and filters the result through _tagged_tests_only' % name,
                fn=f or L.methods['__init__'], nontrivial=False)
     g = L.methods.get('getTestCaseNames')
     if g is None:
         raise AnalysisError('TaggedTestLoader.getTestCaseNames vanished')
-    src = ast.unparse(g.node)
-    uses_dict = 'vars(' in src or '__dict__' in src
-    per_method = any(isinstance(x, ast.Call) and getattr(x.func, 'id', '') == 'hasattr' and isinstance(x.args[0], ast.Call)
-                     and getattr(x.args[0].func, 'id', '') == 'getattr' and norm(x.args[0].args[0]) == 'testCaseClass' for x in ast.walk(g.node))
-    cls_tag = any(isinstance(x, ast.Call) and getattr(x.func, 'id', '') == 'hasattr' and norm(x.args[0]) == 'testCaseClass' for x in ast.walk(g.node))
-    base = 'unittest.TestLoader.getTestCaseNames(self, testCaseClass)' in src
-    run.ob('C19-LOADER', 'getTestCaseNames', per_method and cls_tag and base and not uses_dict,
-           'names come from unittest (%s); a class-level tag keeps all (%s); otherwise a name is kept iff getattr(class, name) carries the tag (%s); '
-           'own-__dict__ lookup used: %s' % (base, cls_tag, per_method, uses_dict), fn=g)
-    # pytest: class tag through the bound method's class, else the function's own tag
-    pt = p.fn('tdda.referencetest.referencepytest.tagged')
-    src = ast.unparse(pt.node)
-    ok = "getattr(cls, '_tagged', None)" in src and "getattr(f.obj, '_tagged', None)" in src and 'items.remove(f)' in src
-    run.ob('C19-LOADER', 'pytest-filter', ok, 'pytest filter reads the tag from the test\'s class and from the function, and removes the item otherwise', fn=pt)
+    # evaluated on stand-in classes: a tag on the class keeps every name; otherwise a name is kept iff the attribute found on
+    # the class - inherited ones included - carries the tag
+    from ..pyeval import Interp, Model, Obj, Unsupported
+
+    class Fn(Model):
+        pass
+
+    def tagged_fn():
+        x = Fn()
+        x._tagged = True
+        return x
+
+    class Base(Model):
+        test_inherited_tagged = tagged_fn()
+        test_inherited_plain = Fn()
+
+    class Untagged(Base):
+        test_own_tagged = tagged_fn()
+        test_own_plain = Fn()
+
+    class Tagged(Base):
+        _tagged = True
+        test_own_plain = Fn()
+    all_names = {Untagged: ['test_inherited_plain', 'test_inherited_tagged', 'test_own_plain', 'test_own_tagged'],
+                 Tagged: ['test_inherited_plain', 'test_inherited_tagged', 'test_own_plain']}
+    want = {Untagged: ['test_inherited_tagged', 'test_own_tagged'], Tagged: all_names[Tagged]}
+    for k in (Untagged, Tagged):
+        I = Interp(p)
+        I.extra_calls['unittest.TestLoader.getTestCaseNames'] = lambda self_, c: list(all_names[c])
+        I.extra_calls['super().getTestCaseNames'] = lambda c: list(all_names[c])
+        try:
+            got = I.call(g, [k], selfobj=Obj(L))
+        except Unsupported as e:
+            raise AnalysisError('getTestCaseNames is not evaluable: %s' % e)
+        run.ob('C19-LOADER', 'getTestCaseNames:%s' % k.__name__, sorted(got or []) == want[k],
+               'for a class %s its own tag the loader keeps %s (expected %s)' % ('with' if k is Tagged else 'without', sorted(got or []), want[k]), fn=g)
     run.floor('C19-LOADER', n + 4, 8)
 
 
@@ -240,44 +278,80 @@ def checkmode(run, p):
 
 
 def pytable(run, p):
-    run.rule('C19-PYTABLE', 'pytest path, over (--tagged, --istagged, item is tagged): an item is removed from the run exactly when '
-                            'listing was asked for or it carries no tag (nothing is touched when neither option is given); its name '
-                            'is printed exactly when listing was asked for and it is tagged')
+    import itertools
+    from ..pyeval import Interp, Model, Unsupported
+    run.rule('C19-PYTABLE', 'pytest path, over (--tagged, --istagged) x four kinds of collected item (method of a tagged class, tagged '
+                            'method of an untagged class, tagged function, untagged function): the items left to run are exactly the '
+                            'tagged ones when only --tagged is given and none when --istagged is given (nothing is touched when '
+                            'neither is given), and the names printed are exactly the tagged classes / functions when listing - '
+                            'decided by abstract execution of tagged() on stand-in items')
     f = p.fn('tdda.referencetest.referencepytest.tagged')
 
-    def effects_of(stmts, env):
-        removed = printed = False
-        for st in stmts:
-            if isinstance(st, ast.If):
-                try:
-                    arms = [st.body if _truth(st.test, env) else st.orelse]
-                except AnalysisError:
-                    arms = [st.body, st.orelse]          # not a function of the three inputs: either arm may run
-                for arm in arms:
-                    r, pr = effects_of(arm, env)
-                    removed, printed = removed or r, printed or pr
-            elif isinstance(st, (ast.For, ast.While, ast.With, ast.Try)):
-                for blk in (st.body, getattr(st, 'orelse', []), getattr(st, 'finalbody', [])):
-                    r, pr = effects_of(blk, env)
-                    removed, printed = removed or r, printed or pr
-            else:
-                for c in ast.walk(st):
-                    if isinstance(c, ast.Call) and norm(c.func).endswith('items.remove'):
-                        removed = True
-                    if isinstance(c, ast.Call) and getattr(c.func, 'id', '') == 'print' and c.args:
-                        printed = True
-        return removed, printed
+    class Config(Model):
+        def __init__(self, opts):
+            self.opts = opts
+
+        def getoption(self, name, default=None):
+            return self.opts.get(name, default)
+
+    class TaggedCase(Model):
+        _tagged = True
+
+    class PlainCase(Model):
+        pass
+
+    class Callable_(Model):
+        pass
+
+    class Item(Model):
+        def __init__(self, name, obj):
+            self.name, self.obj = name, obj
+
+    def make_items():
+        def fn(module, tagged=False, owner=None):
+            o = Callable_()
+            o.__module__ = module
+            if tagged:
+                o._tagged = True
+            if owner is not None:
+                o.__self__ = owner()
+            return o
+        return [Item('test_in_tagged_class', fn('m', owner=TaggedCase)), Item('test_tagged_method', fn('m', tagged=True, owner=PlainCase)),
+                Item('test_tagged_function', fn('m', tagged=True)), Item('test_plain_function', fn('m')),
+                Item('test_plain_method', fn('m', owner=PlainCase))]
+    is_tagged = {'test_in_tagged_class': True, 'test_tagged_method': True, 'test_tagged_function': True,
+                 'test_plain_function': False, 'test_plain_method': False}
     n = 0
-    for rt, st, tg in itertools.product((False, True), (False, True), (False, True)):
-        env = {'runtagged': rt, 'showtagged': st, 'tagged': tg}
-        removed, printed = effects_of(f.node.body, env)
-        want_removed = (rt or st) and (st or not tg)
-        want_printed = st and tg
+    for rt, st in itertools.product((None, True), (None, True)):
+        I = Interp(p)
+        printed = []
+        I.extra_names['print'] = lambda *a, **k: printed.append(' '.join(str(x) for x in a))
+        items = make_items()
+        opts = {}
+        if rt:
+            opts['--tagged'] = True
+        if st:
+            opts['--istagged'] = True
+        try:
+            I.call(f, [Config(opts), items])
+        except Unsupported as e:
+            raise AnalysisError('referencepytest.tagged is not evaluable: %s' % e)
+        left = [i.name for i in items]
+        if not (rt or st):
+            want_left = sorted(is_tagged)
+            want_print = []
+        elif st:
+            want_left = []
+            want_print = sorted(['m.TaggedCase', 'm.PlainCase', 'm.test_tagged_function'])
+        else:
+            want_left = sorted(k for k, v in is_tagged.items() if v)
+            want_print = []
+        got_print = sorted(x for x in printed if x.strip())
         n += 1
-        run.ob('C19-PYTABLE', '--tagged=%s,--istagged=%s,tagged=%s' % (rt, st, tg), removed == want_removed and printed == want_printed,
-               '--tagged %s, --istagged %s, item %s: removed from the run=%s (expected %s), name printed=%s (expected %s)'
-               % (rt, st, 'tagged' if tg else 'untagged', removed, want_removed, printed, want_printed), fn=f)
-    run.floor('C19-PYTABLE', n, 8)
+        run.ob('C19-PYTABLE', '--tagged=%s,--istagged=%s' % (bool(rt), bool(st)), sorted(left) == want_left and got_print == want_print,
+               '--tagged %s, --istagged %s: left to run %s (expected %s); listed %s (expected %s)' % (
+                   bool(rt), bool(st), sorted(left), want_left, got_print, want_print), fn=f)
+    run.floor('C19-PYTABLE', n, 4)
 
 
 def flags(run, p):
